@@ -130,7 +130,7 @@ Definition repaired : behaviour := mkBehaviour false true false.
 
 (** THE SWITCH: which behaviour the library under test has.  Set to [repaired] (field by field) by the
     commit that lands the corresponding [fix:] in /repo. *)
-Definition current_behaviour : behaviour := mkBehaviour false true true.
+Definition current_behaviour : behaviour := repaired.
 
 (** [static boost::mt19937 ran(static_cast<uint32>(std::time(0)))]: the seed is the second, modulo 2^32.
     Repaired: the seed sequence is the second followed by the words drawn from the entropy source
